@@ -9,7 +9,7 @@ PREDEFS = {"$WS": r"[\x09\x0A\x0D\x20]", "$DIGIT": "[0-9]", "$LETTER": "[A-Za-z]
 VALID_REGEX = ["[a-z]+", "[0-9]+", "a|b", "x*y", r"\d+", "(ab)+", "[A-Z][a-z]*", "a?b", r"\."]
 INVALID_REGEX = ["[b-a]", "a{3,1}", "(", "a)", "[", "*a", "a**", "+", "a||b", "[]"]
 
-NT_POOL = ["a", "b", "c", "expr", "stmt", "plus", "star", "opt", "dot", "semi", "gen_a_opt", "gen1_star", "gen_plus_opt", "gen2_group", "x_1"]
+NT_POOL = ["a", "b", "ab", "c", "expr", "stmt", "plus", "star", "opt", "dot", "semi", "gen_a_opt", "gen1_star", "gen_plus_opt", "gen2_group", "x_1"]
 TOK_POOL = ["ID", "NUM", "IF", "AB", "T_1", "WS", "PLUS"]
 STR_POOL = ["a", "b", "+", "-", "*", "(", ";", ".", "if", "IF", "ID", "==", '\\"', "a\\\\b", "\\+", "\\a"]
 
@@ -59,6 +59,9 @@ def gen_spec_tree(rng, defects=()):
     handles: ("tok", T) | ("str", s) | ("rule", lhs, rhs|None)"""
     nnt = rng.choice([1, 2, 3, 4])
     nts = ["start"] + rng.sample(NT_POOL, nnt)
+    memo_family = rng.random() < 0.2
+    if memo_family:
+        nts = ["start", "a", "b", "ab"] + rng.sample([n for n in NT_POOL if n not in ("a", "b")], rng.choice([0, 1]))
     toks = rng.sample(TOK_POOL, rng.choice([0, 1, 2, 3]))
     strs = rng.sample(STR_POOL, rng.choice([1, 2, 3, 4]))
     # sub-expression reuse: a small pool of subtrees that are repeated under different operators
@@ -84,6 +87,22 @@ def gen_spec_tree(rng, defects=()):
                 ops = rng.sample(["group", "opt", "star", "plus"], rng.choice([2, 3, 4]))
                 r = ("seq", [r] + [(o, s) for o in ops])
             decls.append(("rule", n, r))
+    if memo_family:
+        # bracketed alternative lists built to meet in the table that maps a bracket's alternatives to its
+        # synthesised non-terminal: repeated alternatives, permutations, proper sub-/supersets of equal length.
+        # All alternatives of one family member spell the same text when their symbol names are concatenated, so
+        # every list of k of them has the same hash: only the key comparison keeps different brackets apart.
+        A, B, AB = ("nt", "a"), ("nt", "b"), ("nt", "ab")
+        classes = [[[A, B], [AB]], [[A, B, A, B], [AB, AB], [A, B, AB], [AB, A, B]], [[A, AB], [A, A, B]]]
+        cl = rng.choice(classes)
+        k = rng.choice([2, 2, 3])
+        for n in rng.sample(nts, rng.choice([2, 3])):
+            items = []
+            for _ in range(rng.choice([1, 2, 2, 3])):
+                alts = [("seq", list(x)) if len(x) > 1 else x[0] for x in (rng.choice(cl) for _ in range(k))]
+                items.append((rng.choice(["group", "opt", "star", "plus", "opt", "star"]), ("alt", alts, False)))
+            items.append(("str", rng.choice(strs)))
+            decls.append(("rule", n, ("seq", items)))
     for _ in range(rng.choice([0, 0, 1, 2, 3])):
         hs = []
         for _ in range(rng.choice([1, 2, 3])):
